@@ -99,14 +99,46 @@ class Live:
         self.last_fit = None  # index of the dataset of the last COMPLETED fit
         self.unknown = False  # True between an interrupted/rejected fit and the next completed fit
         self.touched = False  # any fit attempted (completed or not)
+        # VectorSpline2D only: the force locations its first fit established (None before), and the datasets
+        # whose coordinates an INTERRUPTED first fit may legitimately have left behind
+        self.vs_force = None
+        self.vs_maybe = []
+
+    def note_fit(self, ds, completed, where):
+        """Model of VectorSpline2D's documented memory; anything else in force_coords is a history dependence."""
+        if self.spec[0] != "vspline":
+            return
+        coords = tuple(np.ravel(c).copy() for c in ds.coordinates[:2])
+        actual = self.obj.force_coords
+        if self.vs_force is not None:
+            return  # established earlier: compare_model checks the behaviour
+        if not completed:
+            self.vs_maybe.append(coords)
+            return
+        allowed = [coords] + self.vs_maybe
+        for cand in allowed:
+            if same_force(actual, cand):
+                self.vs_force = cand
+                self.vs_maybe = []
+                return
+        raise Violation(
+            "history-dependent",
+            f"{where}: VectorSpline2D's force locations ({None if actual is None else len(np.ravel(actual[0]))} points) are neither this first completed fit's data coordinates nor those of an interrupted earlier fit - they come from a call that was rejected",
+        )
 
 
 def fresh_model(live):
     est = build(live.spec)
     if live.spec[0] == "vspline":
-        # documented memory: the constructor parameter written by the first fit
-        est.force_coords = live.obj.force_coords
+        # documented memory: the force locations of the first fit (tracked by the model, see Live.note_fit)
+        est.force_coords = live.vs_force
     return est
+
+
+def same_force(a, b):
+    if a is None or b is None:
+        return a is None and b is None
+    return len(a) == len(b) and all(np.array_equal(np.ravel(x), np.ravel(y)) for x, y in zip(a, b))
 
 
 # ------------------------------------------------------------------ universe
@@ -135,6 +167,8 @@ class Universe:
         rs = np.random.RandomState(tape.subseed("queries"))
         self.queries = [self.guard.add_all((rs.uniform(5, 95, m), rs.uniform(-55, 35, m))) for m in (7, 11)]
         self.queries.append(self.guard.add_all((rs.uniform(5, 95, (3, 4)), rs.uniform(-55, 35, (3, 4)))))
+        # same shapes, other points: a call on these right after a call on `queries` must not disturb its result
+        self.queries_alt = [self.guard.add_all(tuple(np.ascontiguousarray(a[::-1]) * 0.93 + 1.0 for a in q)) for q in self.queries]
         self.results = []  # (where, result object, copies of its arrays)
         self.aliased = []
 
@@ -154,11 +188,9 @@ class Universe:
         for origin, arrs, copies in self.results:
             for a, c in zip(arrs, copies):
                 if a.shape != c.shape or not np.array_equal(a, c, equal_nan=True if a.dtype.kind == "f" else False):
-                    # a result that changes after it was returned (shared scratch buffer) is bad practice but
-                    # not excluded by the statement, which speaks of argument arrays and of repeated calls:
-                    # recorded as a probe, not judged
-                    self.aliased.append(f"{where}: the result returned earlier by [{origin}] changed afterwards")
-                    return
+                    # "calls are pure": a later call must not reach into an array it was not even given - the
+                    # caller still holds the earlier result (no correct implementation hands out shared buffers)
+                    raise Violation("result-aliased", f"{where}: the result returned earlier by [{origin}] changed afterwards (the two calls share a buffer)")
 
 
 def observe(est, q):
@@ -263,6 +295,7 @@ class History:
             self.trace.append(f"L{li}.{name}(D{j}) interrupted@{k}")
             done = self.interrupted(live, call, k, f"L{li}.{name}(D{j})")
             if not done:
+                live.note_fit(ds, False, self.trace[-1])
                 return
             self.trace[-1] += " (completed: k beyond the last call point)"
         else:
@@ -270,6 +303,7 @@ class History:
             res = self.must(self.trace[-1], call)
             if via_filter:
                 self.u.remember(self.trace[-1], res)  # what filter returns is C06's statement, not judged here
+        live.note_fit(ds, True, self.trace[-1])
         live.last_fit, live.unknown, live.touched = j, False, True
         self.after(self.trace[-1])
         self.compare_model(live, self.trace[-1])
@@ -307,8 +341,11 @@ class History:
             # crash while refitting to OTHER data, then a complete fit on D_j must restore fresh behaviour
             where = f"L{li}.fit(D{(j + 1) % len(self.u.datasets[live.ncomp])}) interrupted@{k} then {name}(D{j})"
             if not self.interrupted(live, lambda: live.obj.fit(*oargs), k, where):
-                pass
+                live.note_fit(other, False, where)
+            else:
+                live.note_fit(other, True, where)
             self.must(where, call)
+            live.note_fit(ds, True, where)
             live.last_fit, live.unknown = j, False
             self.u.check_purity(where)
             self.compare_model(live, where)
@@ -322,7 +359,7 @@ class History:
         ds = pool[j]
         c, d, w = ds.coordinates, ds.data, ds.weights
         g = self.u.guard
-        kinds = ["data_shape", "coord_shape", "weight_size", "weight_count"]
+        kinds = ["data_shape", "coord_shape", "weight_size", "weight_count", "extra_coord_shape"]
         if live.ncomp == 2:
             kinds.append("component_count" if live.spec[0] == "vspline" else "data_not_tuple" if live.spec[0] == "vector" else "data_shape")
         kind = self.tape.pick(kinds, "rej.kind")
@@ -332,6 +369,10 @@ class History:
             args = (c, bad_d[0] if len(bad_d) == 1 else bad_d, None)
         elif kind == "coord_shape":
             bad_c = (c[0], g.add(flat(c[1])[:-1].copy()))
+            args = (bad_c, ds.data_arg(), ds.weights_arg())
+        elif kind == "extra_coord_shape":
+            # a third coordinate (height, time) whose shape disagrees with easting/northing
+            bad_c = (c[0], c[1], g.add(np.ones(flat(c[0]).size - 1)))
             args = (bad_c, ds.data_arg(), ds.weights_arg())
         elif kind == "weight_size":
             ww = tuple(g.add(np.ones(flat(x).size - 1)) for x in d)
@@ -355,14 +396,19 @@ class History:
     def op_query(self, li, live):
         kind = self.tape.weighted([("predict", 4), ("grid", 2), ("profile", 1), ("scatter", 1), ("score", 2)], "q.kind")
         obj = live.obj
+        variant = None
         if kind == "predict":
             qi = self.tape.draw(len(self.u.queries), "q.which")
             q = self.u.queries[qi]
+            q_alt = self.u.queries_alt[qi]
             desc, thunk = f"L{li}.predict(Q{qi})", (lambda: obj.predict(q))
+            variant = lambda: obj.predict(q_alt)  # noqa: E731
         elif kind == "grid":
             sp = self.tape.pick([25.0, 40.0], "q.spacing")
             reg = self.tape.pick([None, (10.0, 90.0, -50.0, 30.0)], "q.region")
             desc, thunk = f"L{li}.grid(region={reg}, spacing={sp})", (lambda: obj.grid(region=reg, spacing=sp))
+            if reg is not None:
+                variant = lambda: obj.grid(region=(5.0, 85.0, -45.0, 35.0), spacing=sp)  # noqa: E731 - same shape, shifted
         elif kind == "profile":
             desc, thunk = f"L{li}.profile", (lambda: obj.profile((10.0, -40.0), (80.0, 20.0), size=9))
         elif kind == "scatter":
@@ -434,6 +480,10 @@ class History:
             res = again
         self.u.remember(desc, res)
         self.last_query = (desc, thunk, pristine, obj)
+        if variant is not None:
+            # the very next call, same output shape, other points: the result the caller still holds must not change
+            self.must(desc + " [same-shape variant]", variant)
+            self.probe("same_shape_query_right_after")
         self.after(desc)
         self.compare_model(live, desc + " (after the caller overwrote the returned arrays)")
 
@@ -506,6 +556,8 @@ class History:
             if self.tape.coin(0.5, "copy.continue_on_clone"):
                 live.obj = new
                 live.last_fit, live.unknown, live.touched = None, False, False
+                if live.spec[0] == "vspline" and live.vs_force is None and live.vs_maybe:
+                    pass  # an interrupted first fit may have set the parameter; the clone carries whatever it is
                 self.trace[-1] += " -> continue on the clone"
         elif kind == "set_params":
             before = None
@@ -886,6 +938,11 @@ class History:
             "BlockMean.filter(data shape)": lambda: vd.BlockMean(spacing=20.0).filter(c, np.ravel(d)[:-1]),
             "BlockMean.filter(weight size)": lambda: vd.BlockMean(spacing=20.0).filter(c, d, np.ones(d.size - 1)),
             "rolling_window(both)": lambda: vd.rolling_window(c, size=30.0, spacing=20.0, shape=(3, 3)),
+            "rolling_window(third coordinate shape)": lambda: vd.rolling_window((np.ravel(c[0]), np.ravel(c[1]), np.ones(d.size - 1)), size=30.0, spacing=20.0),
+            "expanding_window(third coordinate shape)": lambda: vd.expanding_window((np.ravel(c[0]), np.ravel(c[1]), np.ones(d.size - 1)), center=(50.0, 0.0), sizes=[20.0, 40.0]),
+            "block_split(third coordinate shape)": lambda: vd.block_split((np.ravel(c[0]), np.ravel(c[1]), np.ones(d.size - 1)), spacing=20.0),
+            "BlockReduce.filter(third coordinate shape)": lambda: vd.BlockReduce(np.mean, spacing=20.0).filter((np.ravel(c[0]), np.ravel(c[1]), np.ones(d.size - 1)), np.ravel(d)),
+            "train_test_split(third coordinate shape)": lambda: vd.train_test_split((np.ravel(c[0]), np.ravel(c[1]), np.ones(d.size - 1)), np.ravel(d), random_state=0),
             "rolling_window(coordinate shapes)": lambda: vd.rolling_window((np.ravel(c[0]), np.ravel(c[1])[:-1]), size=30.0, spacing=20.0),
             "BlockKFold(both)": lambda: list(vd.BlockKFold(spacing=20.0, shape=(3, 3)).split(np.column_stack([np.ravel(c[0]), np.ravel(c[1])]))),
             "BlockShuffleSplit(both)": lambda: list(vd.BlockShuffleSplit(spacing=20.0, shape=(3, 3)).split(np.column_stack([np.ravel(c[0]), np.ravel(c[1])]))),
